@@ -1,5 +1,4 @@
-\* quick: every (old, new) pair of iauth_xquery sections over {a.svc, b.svc} x {login, login-ipr, dronecheck, combined,
-\* bogus, absent} (36 sections, 1 296 pairs), earlier client on, one reload at any point of its activity, scripted probe
+\* thorough: every pair over three names x {login, dronecheck, bogus, absent} (64 sections, 4 096 pairs), earlier client on
 \* (checks/c17.py writes the same text with its own EmitMod / KeepOld)
 CONSTANTS
   Services <- NoServices
@@ -8,9 +7,9 @@ CONSTANTS
   MaxInst = 1
   MaxPw = 1
   EmitMod = 0
-  NameOrder <- Names2
+  NameOrder <- Names3
   RBug <- RB_none
-  TypeWords <- Words5
+  TypeWords <- Words3
   MaxRl = 1
   PreOn = TRUE
   Free = FALSE
